@@ -615,6 +615,21 @@ func (e *SpecEnv) call(x *ast.CallExpr) Val {
 		_ = addRng // range guards deliberately not added: the quantified statement then covers all integer arrays
 		_ = rng
 		return Scalar{mkForall(fmt.Sprintf("%s (%s Int) (%s Int)", strings.Join(binders, " "), on, ln), tImplies(g, body)), boolT}
+	case "haskey":
+		// haskey(m, k): k is a key of map m
+		mv, ok := e.eval(x.Args[0]).(MapV)
+		if !ok {
+			return e.fail("haskey needs a map")
+		}
+		mt := mv.Typ.Underlying().(*types.Map)
+		kv := e.eval(x.Args[1])
+		if cv, ok := kv.(ConstV); ok {
+			if ii, ok := st.c.pkg.intInfo(mt.Key()); ok {
+				kv = Scalar{st.toLeaf(cv, ii.sort()), mt.Key()}
+			}
+		}
+		k := st.toLeaf(kv, st.keySort(mt.Key()))
+		return Scalar{app(SBool, "select", mv.Dom, k), boolT}
 	case "isa":
 		// isa(x, *T): the interface value x holds a value of dynamic type *T
 		v := e.eval(x.Args[0])
